@@ -326,7 +326,11 @@ static size_t random_size(vj::Rng& r, const Opts& o) {
   if (c < 55) { static const int k[] = {1, 2, 31, 32, 33, 63, 64, 65, 127, 128, 129}; return size_t(k[r.below(11)]) * g - r.below(2) * (r.below(g)); }
   if (c < 70) return g * (1 + r.below(200));
   if (c < 80) return o.block - g * r.below(3);                            // around one block
-  if (c < 86) return o.block + g * r.below(3);
+  if (c < 84) return o.block + g * r.below(3);
+  if (c < 88) {                                                          // exactly / just below / just above k base blocks
+    size_t k = 2 + r.below(5), j = r.below(3);
+    return r.chance(1, 2) ? size_t(o.block) * k - g * j - r.below(2) * r.below(g) : size_t(o.block) * k + g * j;
+  }
   if (c < 90) return size_t(o.block) * (2 + r.below(3)) + r.below(1000);  // several blocks
   if (c < 93) return 0;                                                   // invalid
   if (c < 95) return size_t(0x80000000ull) + r.below(4096);               // too large
